@@ -38,6 +38,12 @@ def run(run):
         # direction, advance, verdicts)
         c14.direction(run, f, det)
         edge_outlives_request(run, f)
+        # "asks that timed out / were cancelled never contribute": the guard lives in the ask future, so no wrapper may let
+        # that future outlive its own call (handed to a spawned task, stored): the timeout wrappers await timeout(d, ask) in
+        # place (C10 rule O10.1) and nothing but the lifecycle / the blocking helpers is spawned (C02 rule O2.3)
+        from rules import c10
+        c10.wrapper_shape(run, f, sendpaths.get(f))
+        sr.no_async_detour(run, f, sendpaths.get(f))
         # residue through poisoning: WaitForGuard::drop skips the removal when the lock is poisoned,
         # so "no residue" needs the lock to be unpoisonable: no panic while the guard is live
         from rules import c12
